@@ -500,9 +500,10 @@ def probe_format(ctx):
 
 
 def known_name_cases(ctx):
-    """F-C10-1: a channel whose name the reader converts to a number / bool does not read back under its name."""
-    import numpy as np
-    for name in ('NO', 'Yes', '123', '1E3', 'nan', '7.5'):
+    """F-C10-1: a channel whose name the reader converts to a number / bool does not read back under its name; for
+    NO/YES/0/1 the converted name (False/True/0/1) also aliases a channel INDEX in FrameArray.__getitem__, so the values
+    land in the wrong channel and channel 0 keeps uninitialised memory (sometimes 'Duplicate Xaxis value')."""
+    for name in ('NO', 'Yes', '123', '1E3', 'nan', '1'):
         case = {'chans': [{'ident': 'DEPT', 'units': 'm', 'units_bytes': False, 'long': 'Depth', 'long_bytes': False, 'dtype': 'float64',
                            'shape': [1], 'values': [[(1.0).hex()], [(2.0).hex()]]},
                           {'ident': name, 'units': 'api', 'units_bytes': False, 'long': 'x', 'long_bytes': False, 'dtype': 'float64',
@@ -514,16 +515,27 @@ def known_name_cases(ctx):
 def run_known(ctx, case):
     from TotalDepth.LAS.core import LASRead
     ctx.count('oracle_cases')
+    import numpy as np
     try:
-        _, text = write(case)
+        fa, text = write(case)
+    except Exception as e:                                      # noqa
+        ctx.fail(case, f'writer raised {type(e).__name__}: {e}'); return False
+    want = [ch['ident'] for ch in case['chans']]
+    curve, head, _, rows = parse_text(text)
+    if [c[0] for c in curve] != want or head != want or [len(r.split()) for r in rows] != [len(want)] * case['n_frames']:
+        ctx.fail(case, f'written text lists {[c[0] for c in curve]} / {head}, expected {want}'); return False
+    try:
         las = LASRead.LASRead(io.StringIO(HEADER + text), 'c10')
         got = [ch.ident for ch in las.frame_array.channels]
+        vals = [[float(x) for x in np.ma.getdata(ch.array)[:, 0]] for ch in las.frame_array.channels]
     except Exception as e:                                      # noqa
-        ctx.fail(case, f'raised {type(e).__name__}: {e}'); return False
-    want = [ch['ident'] for ch in case['chans']]
-    if [repr(g) for g in got] != [repr(w) for w in want]:
-        ctx.fail(case, f'read-back channel names {got!r}, expected {want!r} (the reader converts mnemonics with string_to_value)',
+        ctx.fail(case, f'reader raised {type(e).__name__}: {e} (mnemonic converted by string_to_value aliases a channel index)',
                  finding='F-C10-1')
+        return False
+    wv = [[float(x) for x in fch.array[:, 0]] for fch in fa.channels]
+    if [repr(g) for g in got] != [repr(w) for w in want] or vals != wv:
+        ctx.fail(case, f'read-back channel names {got!r} values {vals!r}, expected {want!r} {wv!r} '
+                       f'(the reader converts mnemonics with string_to_value)', finding='F-C10-1')
         return False
     return True
 
